@@ -233,6 +233,10 @@ def build_ppt(seed: int, feature: str | None = None, twin: bool = False):
                     add_body(TX_BODY, "\r".join(paras))
             elif feature == "soft-line-break":
                 add_body(TX_BODY, words("b", s, 2, 3, sep=" " if twin else "\x0b"))
+        if not textless and any(t in (TX_TITLE, TX_CENTER_TITLE) for t, _ in blocks) and random.Random(f"ppt:{seed}:second-title{s}").random() < 0.15:
+            # a second title-typed text on the slide (title + centre title, a text box whose text type was set to title): it is slide
+            # text like any other, after the bodies
+            blocks.append((random.Random(f"ppt:{seed}:second-title-type{s}").choice([TX_TITLE, TX_CENTER_TITLE]), words("x", s, 1, 3)))
         if not textless and rng.random() < 0.15:
             blocks.append((TX_OTHER, words("x", s, 1, 3)))
         if s == fslide and feature == "textbox-in-slide-drawing":
